@@ -383,3 +383,79 @@ def run_pipe(harness_exe, harness_args, driver_exe, driver_args, timeout=1500, m
         pre, timeout, harness_exe, " ".join(harness_args), timeout, driver_exe, " ".join(driver_args))
     p = subprocess.run(["bash", "-c", cmd], stdout=subprocess.PIPE, stderr=subprocess.PIPE, text=True)
     return p.returncode, p.stdout, p.stderr
+
+
+# --------------------------------------------------------------------------- standard pipeline
+
+def standard_run(res, harness, harness_args, driver, rule, assumptions,
+                 driver_args=(), exhaustive=False, corr_name=None, timeout=1500, known_matcher=None):
+    """The common shape of a correspondence check.
+
+    The Go harness (harness/<harness>/, compiled into /repo's tree) prints one observation per
+    line; the OCaml driver (coq/extract/<driver>.v + ocaml/<driver>_main.ml) recomputes each
+    observation with the extracted Coq model and prints
+        MISMATCH <obs> || model=<m>    implementation != model, and the spec is a total function
+                                       (model = spec is a theorem), so this IS a violation;
+        PFAIL <obs> || clause=<c>      the property predicate is false on the implementation's output;
+        DISAGREE <obs> || model=<m>    implementation != model but the property predicate holds
+                                       (reported as `no-failing-input-found` if no PFAIL/MISMATCH);
+        STATS {json}                   final line (Common.print_stats).
+    known_matcher(obs) -> description or None marks an observation as a listed known finding.
+    """
+    res.corr_obligations = [corr_name or "impl = extracted model on every generated case (%s | %s)" % (harness, driver)]
+    scratch = scratch_dir()
+    try:
+        exe, log = build_harness(harness, scratch)
+        if exe is None:
+            res.violation("harness no longer builds against /repo's working tree (broken tie)",
+                          {"correspondence": res.corr_obligations[0], "build_log": log[-3000:]}, no_input=True)
+            return None
+        drv = build_driver(driver)
+        rc, out, err = run_pipe(exe, [str(a) for a in harness_args], drv, [str(a) for a in driver_args], timeout=timeout)
+        stats, mism, pfail, disag = None, [], [], []
+        for line in out.splitlines():
+            if line.startswith("STATS "):
+                stats = json.loads(line[6:])
+            elif line.startswith("MISMATCH "):
+                mism.append(line[9:])
+            elif line.startswith("PFAIL "):
+                pfail.append(line[6:])
+            elif line.startswith("DISAGREE "):
+                disag.append(line[9:])
+        if rc != 0 or stats is None:
+            res.violation("implementation harness or model driver failed (rc=%s): the correspondence could not be established" % rc,
+                          {"correspondence": res.corr_obligations[0], "stderr": err[-3000:], "stdout_tail": out[-1500:]}, no_input=True)
+            return None
+        res.cov.update({
+            "evaluations": stats["cases"],
+            "distinct_nontrivial": stats["distinct_nontrivial"],
+            "rule": rule,
+            "samples": stats["samples"],
+            "kinds": stats["kinds"],
+            "exhaustive": bool(exhaustive),
+            "mismatches": stats["mismatches"],
+        })
+        for k, v in stats.items():
+            if k not in ("cases", "distinct_nontrivial", "samples", "kinds", "mismatches"):
+                res.cov[k] = v
+        res.assumptions = list(assumptions)
+        found = False
+        for kind, items in (("property predicate fails on the implementation's output", pfail),
+                            ("implementation disagrees with the specification (model = spec is a theorem)", mism)):
+            for m in items:
+                obs, _, rest = m.partition(" || ")
+                kd = known_matcher(obs) if known_matcher else None
+                if kd:
+                    if kd not in res.known_hits:
+                        res.known_hits.append(kd)
+                    continue
+                found = True
+                res.violation("%s: %s ; %s" % (kind, obs, rest), {"observation": obs, "detail": rest,
+                              "harness": "harness/%s/main.go %s" % (harness, " ".join(map(str, harness_args)))})
+        if not found and disag:
+            res.violation("model and implementation disagree on inputs where the property predicate still holds; "
+                          "correspondence broken: " + disag[0],
+                          {"correspondence": res.corr_obligations[0], "disagreements": disag[:10]}, no_input=True)
+        return stats
+    finally:
+        shutil.rmtree(scratch, ignore_errors=True)
